@@ -127,11 +127,25 @@ func findRecoverHandler(fn *ssa.Function) *recoverHandler {
 			continue
 		}
 		cl := core.Callee(d)
-		if cl == nil || cl.Parent() != fn {
+		if cl == nil || cl.Blocks == nil || !core.InModule(cl) {
 			continue
 		}
 		h := &recoverHandler{Defer: d, Closure: cl}
 		hasRecover := false
+		// is `cell` a named error result of fn?
+		namedResult := func(cell ssa.Value) bool {
+			a, ok := cell.(*ssa.Alloc)
+			if !ok || a.Parent() != fn {
+				return false
+			}
+			res := fn.Signature.Results()
+			for i := 0; i < res.Len(); i++ {
+				if res.At(i).Name() != "" && res.At(i).Name() == a.Comment && implementsError(res.At(i).Type()) {
+					return true
+				}
+			}
+			return false
+		}
 		core.Instrs(cl, func(in ssa.Instruction) {
 			if call, ok := in.(*ssa.Call); ok {
 				if b, ok := call.Call.Value.(*ssa.Builtin); ok && b.Name() == "recover" {
@@ -144,16 +158,18 @@ func findRecoverHandler(fn *ssa.Function) *recoverHandler {
 				}
 			}
 			if st, ok := in.(*ssa.Store); ok {
-				if fv, ok := st.Addr.(*ssa.FreeVar); ok {
-					if b := core.Binding(fv); b != nil {
-						if a, ok := b.(*ssa.Alloc); ok {
-							res := fn.Signature.Results()
-							for i := 0; i < res.Len(); i++ {
-								if res.At(i).Name() != "" && res.At(i).Name() == a.Comment && implementsError(res.At(i).Type()) {
-									h.Assigns = true
-								}
-							}
+				switch a := st.Addr.(type) {
+				case *ssa.FreeVar:
+					// closure over the named result
+					if cl.Parent() == fn {
+						if b := core.Binding(a); b != nil && namedResult(b) {
+							h.Assigns = true
 						}
+					}
+				case *ssa.Parameter:
+					// shared handler taking the address of the named result: defer recoverFailure(&err)
+					if j := paramIndex(cl, a); j >= 0 && j < len(d.Call.Args) && namedResult(d.Call.Args[j]) {
+						h.Assigns = true
 					}
 				}
 			}
@@ -208,7 +224,7 @@ func runC15(p *core.Prog, r *core.Result) {
 			r.Check(implementsError(t), "R15.1", construct, p.InstrPos(pn), "panics with a value of type "+shortType(t)+" (an error)", "panics with a value of type "+shortType(t)+" which is not an error: the recover handler's assertion fails, the panic is swallowed and Decode returns (nil, nil)")
 		})
 	}
-	r.Floor("R15.1", nPanics, 20, "explicit panics reachable from Decode")
+	r.Floor("R15.1", nPanics, 10, "explicit panics reachable from Decode")
 	// reader.Read must not return on a short read
 	if rd := p.Func("pickle", "reader", "Read"); rd != nil {
 		ok := true
@@ -392,6 +408,35 @@ func checkDecoderProgress(p *core.Prog, r *core.Result, decode *ssa.Function, cl
 						}
 					}
 				}
+				if !bounded {
+					// a loop that consumes a slice: s = s[k:] with k >= 1 on the back edge and the exit tests len(s)
+					for _, in := range h.Instrs {
+						ph, ok := in.(*ssa.Phi)
+						if !ok {
+							continue
+						}
+						if _, isSlice := ph.Type().Underlying().(*types.Slice); !isSlice {
+							continue
+						}
+						for i, e := range ph.Edges {
+							if !loop[h.Preds[i]] {
+								continue
+							}
+							if sl, ok := e.(*ssa.Slice); ok && sl.X == ssa.Value(ph) && sl.Low != nil {
+								if k, ok := core.ConstInt(sl.Low); ok && k >= 1 {
+									for lb := range loop {
+										if iff, ok := lb.Instrs[len(lb.Instrs)-1].(*ssa.If); ok {
+											exits := !loop[lb.Succs[0]] || !loop[lb.Succs[1]]
+											if exits && core.DependsOn(iff.Cond, core.SliceOpts{}, func(v ssa.Value) bool { return v == ssa.Value(ph) }) {
+												bounded, why = true, fmt.Sprintf("consumes %d element(s) of a slice per iteration, exit tests its length", k)
+											}
+										}
+									}
+								}
+							}
+						}
+					}
+				}
 				if bounded {
 					r.OK("R15.4", construct, pos, "bounded loop (%s)", why)
 				} else {
@@ -400,7 +445,7 @@ func checkDecoderProgress(p *core.Prog, r *core.Result, decode *ssa.Function, cl
 			}
 		}
 	}
-	r.Floor("R15.4", nLoops, 6, "loops in the decoder")
+	r.Floor("R15.4", nLoops, 3, "loops in the decoder")
 }
 
 func checkPushesNonNil(p *core.Prog, r *core.Result, decode *ssa.Function, unpicklers []*ssa.Function) {
@@ -413,38 +458,14 @@ func checkPushesNonNil(p *core.Prog, r *core.Result, decode *ssa.Function, unpic
 		n++
 		arg := c.Common().Args[1]
 		construct := fmt.Sprintf("pickle.(*Decoder).decode#push-%d", n)
-		ok, why := false, ""
-		switch x := arg.(type) {
-		case *ssa.MakeInterface:
-			if !core.IsNilConst(x.X) {
-				ok, why = true, "a concrete "+shortType(x.X.Type())
-				// pointer results of constructors are trusted non-nil; a literal nil pointer is not
-			}
-		case *ssa.Call:
-			if f := core.Callee(x); f != nil && (f.Name() == "get" || f.Name() == "pop" || f.Name() == "peek") {
-				ok, why = true, "a previously pushed value ("+f.Name()+")"
-			}
-		case *ssa.Extract:
-			if call, isCall := x.Tuple.(*ssa.Call); isCall && call.Call.IsInvoke() && call.Call.Method.Name() == "Unpickle" && x.Index == 0 {
-				// must be on the nil-error edge
-				var errV ssa.Value
-				for _, ref := range *call.Referrers() {
-					if e, ok := ref.(*ssa.Extract); ok && e.Index == 1 {
-						errV = e
-					}
-				}
-				if nn, known := p.FactsAt(c.(ssa.Instruction)).ErrNonNil(errV); errV != nil && known && !nn {
-					ok, why = true, "the unpickler's value on its nil-error edge"
-				}
-			}
-		}
+		ok, why := nonNilSource(p, arg, c.(ssa.Instruction), 0)
 		if ok {
 			r.OK("R15.5", construct, p.InstrPos(c.(ssa.Instruction)), "pushes %s", why)
 		} else {
 			r.Bad("R15.5", construct, p.InstrPos(c.(ssa.Instruction)), "pushes a value that may be nil: Decode can return (nil, nil) or later opcodes dereference nil")
 		}
 	}
-	r.Floor("R15.5", n, 20, "push sites in decode")
+	r.Floor("R15.5", n, 10, "push sites in decode")
 	for _, u := range unpicklers {
 		i := 0
 		for _, ret := range core.ReturnsOf(u) {
@@ -638,7 +659,7 @@ func checkRecordConsumers(p *core.Prog, r *core.Result) {
 			}
 		})
 	}
-	r.Floor("R15.7", nSites, 4, "crash-source sites on the record-loading path")
+	r.Floor("R15.7", nSites, 2, "crash-source sites on the record-loading path")
 }
 
 func findLenOf(fn *ssa.Function, slice ssa.Value) ssa.Value {
@@ -672,4 +693,46 @@ func checkLenMinusK(p *core.Prog, r *core.Result, fn *ssa.Function, at ssa.Instr
 	*nSites++
 	iv := lenInterval(p, lc, at)
 	r.Check(iv.lo >= float64(k), "R15.7", fmt.Sprintf("%s#len-minus-%d", fname(fn), k), p.InstrPos(at), fmt.Sprintf("len(x)-%d is used only when len(x) is in %v", k, iv), fmt.Sprintf("len(x)-%d is used as a bound although len(x) may be in %v: a record whose environment differs only in keys unknown to the reason table crashes the build (slice bounds out of range) outside any recover scope", k, iv))
+}
+
+// nonNilSource: v is a value the decoder may push: a concrete non-nil value, a previously pushed value, the
+// unpickler's value on its nil-error edge, or the result of an in-package helper all of whose returns are such values.
+func nonNilSource(p *core.Prog, v ssa.Value, at ssa.Instruction, depth int) (bool, string) {
+	switch x := v.(type) {
+	case *ssa.MakeInterface:
+		if !core.IsNilConst(x.X) {
+			return true, "a concrete " + shortType(x.X.Type())
+		}
+	case *ssa.Call:
+		f := core.Callee(x)
+		if f != nil && (f.Name() == "get" || f.Name() == "pop" || f.Name() == "peek") {
+			return true, "a previously pushed value (" + f.Name() + ")"
+		}
+		if f != nil && core.InModule(f) && f.Blocks != nil && depth < 2 && f.Signature.Results().Len() == 1 {
+			all := true
+			n := 0
+			for _, ret := range core.ReturnsOf(f) {
+				n++
+				if ok, _ := nonNilSource(p, core.RetVals(ret)[0], ret, depth+1); !ok {
+					all = false
+				}
+			}
+			if all && n > 0 {
+				return true, "the result of " + fname(f) + ", which returns only non-nil values"
+			}
+		}
+	case *ssa.Extract:
+		if call, isCall := x.Tuple.(*ssa.Call); isCall && call.Call.IsInvoke() && call.Call.Method.Name() == "Unpickle" && x.Index == 0 {
+			var errV ssa.Value
+			for _, ref := range *call.Referrers() {
+				if e, ok := ref.(*ssa.Extract); ok && e.Index == 1 {
+					errV = e
+				}
+			}
+			if nn, known := p.FactsAt(at).ErrNonNil(errV); errV != nil && known && !nn {
+				return true, "the unpickler's value on its nil-error edge"
+			}
+		}
+	}
+	return false, ""
 }
